@@ -439,9 +439,33 @@ def shape_work(mode, prods, optional=False):
     return Shape(name, build, obligations)
 
 
+def shape_work_default(kind, size=None, prod=None):
+    """the work of a task done by one plain or cumulative worker whose productivity is the documented default (1) or
+    a declared value: whatever the share of each elementary worker, the worker as a whole delivers at most
+    productivity x duration, so a scheduled task has  productivity * (end - start) >= work amount"""
+    name = f"work_one_resource/{kind}" + (f"_size{size}" if size else "") + f"/productivity_{'default' if prod is None else prod}"
+
+    def build(P):
+        pb, hv = new_problem(P, False)
+        a = make_task(P, "A", "var", work_amount=True)
+        kw = {} if prod is None else {"productivity": prod}
+        res = ps.Worker(name="W", **kw) if kind == "worker" else ps.CumulativeWorker(name="CW", size=size, **kw)
+        a.obj.add_required_resource(res)
+        return Ctx(problem=pb, a=a)
+
+    def obligations(ctx):
+        a = ctx.a
+        total = 1 if prod is None else prod
+        return [Ob(f"{PROP}/{name}/work_amount_within_the_declared_productivity", "sound", clause=total * (a.e - a.s) >= a.work_amount, guard=a.sched)]
+
+    return Shape(name, build, obligations)
+
+
 def shapes(tier):
     out = []
     thorough = tier == "thorough"
+    for kind, size, prod in (("worker", None, None), ("worker", None, 3), ("cumulative", 2, None), ("cumulative", 2, 3), ("cumulative", 3, 4)):
+        out.append(shape_work_default(kind, size, prod))
     # static assignments, delay-in / early-out
     for delays in ("none", "in", "out", "both"):
         for kinds in ([("fixed", "fixed"), ("var", "fixed")] + ([("fixed", "var", "zero"), ("var", "var", "fixed", "fixed")] if thorough else [("fixed", "var", "fixed")] if delays == "both" else [])):
